@@ -33,7 +33,8 @@ PrimNames == << "def", "gdef", "global", "let", "count", "countdef", "chardef", 
                 "iffalse", "ifnum", "ifodd", "ifcase", "or", "else", "fi", "globaldefs",
                 "long", "outer" >>
 NPrim  == Len(PrimNames)
-NNames == NPrim + 8          \* eight user names follow the primitives
+NNames == NPrim + 10         \* eight user control sequences and two active characters follow the primitives
+                             \* (an active character is a name like any other: TeX 222 eqtb layout)
 NReg   == 4                  \* \count0 .. \count3
 Big    == 100000000          \* values beyond this leave the model (skip)
 
